@@ -138,6 +138,11 @@ func (s *fakeServer) serve(conn net.Conn) {
 		if f.Header[2]&0x40 != 0 { // heartbeat: echo
 			continue
 		}
+		if string(f.Method) == "warmup" {
+			// a call outside the script (it makes this server the client's sticky one): answered at once
+			s.respond(conn, f, "ok0", 0, nil)
+			continue
+		}
 		s.mu.Lock()
 		act := "ok0"
 		if len(s.calls) > 0 {
